@@ -48,6 +48,11 @@ pub mod shadow_std {
         pub use super::super::simenv::exit;
         pub use ::std::process::*;
     }
+
+    pub mod thread {
+        pub use super::super::simthread::{scope, spawn, JoinHandle, Scope, ScopedJoinHandle};
+        pub use ::std::thread::*;
+    }
 }
 
 // =============================================================================================
@@ -874,6 +879,130 @@ pub mod simenv {
     }
     pub fn exit(code: i32) -> ! {
         std::panic::panic_any(ExitRequest(code))
+    }
+}
+
+// =============================================================================================
+// Threads: bodies run as atomic tasks on the simulator's own thread
+// =============================================================================================
+/// The pinned generators are single-threaded; this shim exists so that a generator rewritten to
+/// use worker threads still runs under the simulator instead of escaping it. A spawned body runs
+/// to completion without preemption, either at `spawn` (eager) or — for `'static` spawns, by
+/// simulator decision — deferred until the first `join`, at which point all deferred bodies run
+/// in a simulator-chosen order. Scoped threads run eagerly. This explores the completion orders of
+/// whole thread bodies, not interleavings inside them.
+pub mod simthread {
+    use crate::world;
+    use std::any::Any;
+    use std::cell::RefCell;
+    use std::marker::PhantomData;
+    use std::panic::{catch_unwind, AssertUnwindSafe};
+    use std::rc::Rc;
+
+    type Res<T> = Result<T, Box<dyn Any + Send + 'static>>;
+
+    thread_local! {
+        static PENDING: RefCell<Vec<Box<dyn FnOnce()>>> = const { RefCell::new(Vec::new()) };
+    }
+
+    /// drop deferred bodies that were never joined (a real process exit kills such threads)
+    pub fn reset() {
+        PENDING.with(|p| p.borrow_mut().clear());
+    }
+
+    fn run_pending() {
+        let tasks: Vec<Box<dyn FnOnce()>> = PENDING.with(|p| std::mem::take(&mut *p.borrow_mut()));
+        if tasks.is_empty() {
+            return;
+        }
+        let order = world::with(|w| w.decide_task_order(tasks.len()));
+        let mut slots: Vec<Option<Box<dyn FnOnce()>>> = tasks.into_iter().map(Some).collect();
+        for i in order {
+            if let Some(t) = slots[i as usize].take() {
+                t();
+            }
+        }
+    }
+
+    pub struct JoinHandle<T> {
+        slot: Rc<RefCell<Option<Res<T>>>>,
+    }
+
+    impl<T> JoinHandle<T> {
+        pub fn join(self) -> Res<T> {
+            if self.slot.borrow().is_none() {
+                run_pending();
+            }
+            let r = self.slot.borrow_mut().take();
+            r.expect("simulated thread body did not run")
+        }
+        pub fn is_finished(&self) -> bool {
+            self.slot.borrow().is_some()
+        }
+    }
+
+    pub fn spawn<F, T>(f: F) -> JoinHandle<T>
+    where
+        F: FnOnce() -> T + Send + 'static,
+        T: Send + 'static,
+    {
+        let slot: Rc<RefCell<Option<Res<T>>>> = Rc::new(RefCell::new(None));
+        let eager = world::with(|w| w.decide_spawn());
+        if eager {
+            *slot.borrow_mut() = Some(catch_unwind(AssertUnwindSafe(f)));
+        } else {
+            let s2 = slot.clone();
+            PENDING.with(|p| {
+                p.borrow_mut().push(Box::new(move || {
+                    *s2.borrow_mut() = Some(catch_unwind(AssertUnwindSafe(f)));
+                }))
+            });
+        }
+        JoinHandle { slot }
+    }
+
+    pub struct Scope<'scope, 'env: 'scope> {
+        _scope: PhantomData<&'scope mut &'scope ()>,
+        _env: PhantomData<&'env mut &'env ()>,
+    }
+
+    pub struct ScopedJoinHandle<'scope, T> {
+        result: Option<Res<T>>,
+        _scope: PhantomData<&'scope ()>,
+    }
+
+    impl<T> ScopedJoinHandle<'_, T> {
+        pub fn join(mut self) -> Res<T> {
+            self.result.take().expect("scoped body ran at spawn")
+        }
+        pub fn is_finished(&self) -> bool {
+            true
+        }
+    }
+
+    impl<'scope, 'env> Scope<'scope, 'env> {
+        pub fn spawn<F, T>(&'scope self, f: F) -> ScopedJoinHandle<'scope, T>
+        where
+            F: FnOnce() -> T + Send + 'scope,
+            T: Send + 'scope,
+        {
+            world::with(|w| w.note_scoped_spawn());
+            ScopedJoinHandle {
+                result: Some(catch_unwind(AssertUnwindSafe(f))),
+                _scope: PhantomData,
+            }
+        }
+    }
+
+    pub fn scope<'env, F, T>(f: F) -> T
+    where
+        F: for<'scope> FnOnce(&'scope Scope<'scope, 'env>) -> T,
+    {
+        let s = Scope {
+            _scope: PhantomData,
+            _env: PhantomData,
+        };
+        f(&s)
     }
 }
 
